@@ -14,7 +14,7 @@ ID = 'C08'
 LEVEL = 'exploration'
 RULE = ('bounded-operator formulas (one operator and 2-chains) x ALL equivalent spellings of their bounds: unit suffix in {none, s, ms, us, ns} on begin and '
         'on end independently (a missing suffix takes the other bound\'s unit, else the default unit), default unit spec.unit in {s, ms, us}, sampling period '
-        'in {1 s, 500 ms, 2 s, 250000 us; 100 ms, 0.1 s (a float), 300 us, 0.5 ms - the last four not exactly representable in binary or given as floats} with the bounds scaled to it and the time-stamps i*period rounded to floats; float-period family: every period k/1000 s written as a float (k = 1..120, thorough 1..1000) must behave as k ms; x discrete offline / online / pastified online x all traces up to length n; every '
+        'in {1 s, 500 ms, 2 s, 250000 us; 100 ms, 0.1 s (a float), 300 us, 0.5 ms - the last four not exactly representable in binary or given as floats} with the bounds scaled to it and the time-stamps i*period rounded to floats; float-period family: every period k/1000 s written as a float (k = 1..120, thorough 1..1000) must behave as k ms; x discrete offline / online / pastified online (every fourth spelling also on the combined class StlDiscreteTimeSpecification, offline and pastified online) x all traces up to length n; every '
         'spelling must return the reference rho of the sample-count bounds (hence all spellings agree); bounds that are NOT a multiple of the period '
         '(every spelling again) must raise RTAMTException at parse() or at the first evaluation and nothing else; dense time: default unit x suffixes '
         'with time-stamps rescaled consistently, compared with the dense reference; life layer: discrete offline objects configured and used under one of 5 configurations and then '
@@ -241,14 +241,20 @@ def run_dt(shard, tier, res, mod):
         for k in range(nsp):
             choice = [k] + [(k * 7 + 3 * j) % nsp for j in range(1, nint)]
             text = spell_formula(f, period_ns, du, choice)
-            plans = [('dt_off', False)]
+            plans = [('dt_off', False, False)]
             if F.past_only(f):
-                plans.append(('dt_on', False))
-            plans.append(('dt_on', True))
-            for kind, pastify in plans:
+                plans.append(('dt_on', False, False))
+            plans.append(('dt_on', True, False))
+            if k % 4 == 1:
+                # the combined class rtamt.StlDiscreteTimeSpecification (evaluate() and update() on one class, two interpreters behind one set of setters)
+                plans += [('dt_off', False, True), ('dt_on', True, True)]
+            for kind, pastify, combined in plans:
                 case0 = {'mode': 'dt', 'formula': F.to_json(f), 'spec': text, 'vars': vs, 'unit': du, 'period': [p, pu], 'kind': kind, 'pastify': pastify}
+                if combined:
+                    case0['combined'] = True
+                    res.flags['combined_class_specs'] += 1
                 try:
-                    spec = impl.build(kind, text, vs, unit=du, period=(p, pu), pastify=pastify)
+                    spec = impl.build(kind, text, vs, unit=du, period=(p, pu), pastify=pastify, combined=combined)
                 except Exception as e:
                     res.violation(mod, dict(case0, trace=None), 'parse()/pastify() raised %s: %s' % (type(e).__name__, str(e)[:150]))
                     res.outcomes['parse raised'] += 1
@@ -257,7 +263,7 @@ def run_dt(shard, tier, res, mod):
                     res.evaluations += 1
                     nn = len(ref)
                     if kind == 'dt_on':
-                        spec = impl.build(kind, text, vs, unit=du, period=(p, pu), pastify=pastify)
+                        spec = impl.build(kind, text, vs, unit=du, period=(p, pu), pastify=pastify, combined=combined)
                     times = [float(Fr(i * period_ns, U[du])) for i in range(nn)]
                     kk, vals = impl.outcome(kinds.dt_values, kind, spec, w, times)
                     msg = None
@@ -281,7 +287,7 @@ def run_dt(shard, tier, res, mod):
                         res.outcomes['agree'] += 1
                         if k != 0 and not all(x in (refsem.INF, -refsem.INF) for x in ref):
                             res.nontrivial += 1
-                    res.digest(text, du, kind, pastify, msg)
+                    res.digest(text, du, kind, pastify, combined, msg)
     res.sample({'formula_in_samples': F.pr(f), 'period': [p, pu], 'default_unit': du, 'one_spelling': text}, 1)
 
 
@@ -485,7 +491,7 @@ def replay(case):
     f = F.from_json(case['formula'])
     p, pu = case['period']
     w = case['trace']
-    spec = impl.build(case['kind'], case['spec'], case['vars'], unit=case['unit'], period=(p, pu), pastify=case['pastify'])
+    spec = impl.build(case['kind'], case['spec'], case['vars'], unit=case['unit'], period=(p, pu), pastify=case['pastify'], combined=case.get('combined', False))
     nn = len(next(iter(w.values())))
     times = [float(Fr(i * pns(p, pu), U[case['unit']])) for i in range(nn)]
     k, vals = impl.outcome(kinds.dt_values, case['kind'], spec, w, times)
